@@ -131,6 +131,29 @@ def main():
                 save(res)
                 own = r.get("checks", {}).get(key[:3], {})
                 print(key, "verified" if r.get("verified") else "NOT-VERIFIED", {c: ("caught" if x["caught"] else f"exit{x['exit']}") for c, x in r.get("checks", {}).items()}, flush=True)
+    elif args and args[0] == "refresh":
+        # refresh -j N Cxx Cyy ... : re-run every stored seed of these properties with the current checks; the verdicts of
+        # the first run are kept under "first_run" (so that a miss that was repaired stays visible)
+        j = int(args[args.index("-j") + 1]) if "-j" in args else 3
+        props = [a for a in args[1:] if a.startswith("C")]
+        res = load()
+        items = []
+        for prop, v, key in todo(res):
+            if prop in props and res.get(key, {}).get("verified"):
+                r = res[key]
+                if "checks" in r:
+                    r.setdefault("first_run", r["checks"])
+                    r["checks"] = {}
+                items.append((prop, v, key))
+        save(res)
+        with ThreadPoolExecutor(j) as ex:
+            for key, r in ex.map(process, items):
+                if r is None:
+                    continue
+                res = load()
+                res[key] = r
+                save(res)
+                print(key, {c: ("caught" if x["caught"] else f"exit{x['exit']}") for c, x in r.get("checks", {}).items()}, flush=True)
     elif args and args[0] == "rerun":
         prop, v = args[1], args[2]
         checks = args[3:] or [c for c in RELATED[prop] if have_check(c)]
